@@ -21,7 +21,7 @@ RULE = ('cases: one long run per case (quick 12 000 frames, thorough 300 000), c
         'lowered to 64 in a subclass so the cap is exercised; evaluations count frames delivered; non-trivial = more '
         'than MAX_CLOSED_STREAMS + 1000 streams were closed, or a limit was approached within one unit; distinct by trace')
 ASSUMPTIONS = ['retained state is measured by table sizes (two private tables are read with len() only), not bytes']
-TIERS = {'quick': {'cases': 32, 'size': 64, 'frames': 12000, 'cap': 64},
+TIERS = {'quick': {'cases': 96, 'size': 64, 'frames': 12000, 'cap': 64},
          'thorough': {'cases': 64, 'size': 64, 'frames': 300000, 'cap': None}}
 REQ = [(b':method', b'GET'), (b':scheme', b'https'), (b':authority', b'example.com'), (b':path', b'/')]
 RESP = [(b':status', b'200')]
@@ -44,10 +44,15 @@ class Cycler(Chooser):
         return v
 
 
-def make_conn(client, cap):
+def make_conn(client, cap, default_hls=None):
     cls = h2.connection.H2Connection
+    attrs = {}
     if cap is not None:
-        cls = type('SmallMemoryConnection', (cls,), {'MAX_CLOSED_STREAMS': cap})
+        attrs['MAX_CLOSED_STREAMS'] = cap
+    if default_hls is not None:
+        attrs['DEFAULT_MAX_HEADER_LIST_SIZE'] = default_hls      # the other documented class constant
+    if attrs:
+        cls = type('SmallMemoryConnection', (cls,), attrs)
     return cls(h2.config.H2Configuration(client_side=client))
 
 
@@ -59,7 +64,8 @@ def run_case(data):
     r = Result()
     client = ch.bool()
     cap = tier['cap']
-    c = make_conn(client, cap)
+    default_hls = ch.pick([None, None, None, 1024])
+    c = make_conn(client, cap, default_hls)
     ep = Endpoint(client, conn=c)
     enc = Encoder()
     ep.call('initiate_connection')
@@ -124,11 +130,12 @@ def run_case(data):
 
     connections = 1
     max_closed = 0
+    hls_touched = False
     while delivered < budget and not r.violations:
         if dead:
             # the previous connection ended with an (expected) connection error: carry on with a fresh one
             max_closed = max(max_closed, closed_total)
-            c = make_conn(client, cap)
+            c = make_conn(client, cap, default_hls)
             ep = Endpoint(client, conn=c)
             enc = Encoder()
             ep.call('initiate_connection')
@@ -143,6 +150,7 @@ def run_case(data):
             dead = False
             connections += 1
             delivered += 2
+            hls_touched = False
             old_sid = open_old()
         phase = ch.weighted([(3, 'noise-idle'), (3, 'noise-closed'), (6, 'churn'), (4, 'push-flood'), (2, 'continuation'),
                              (2, 'header-list-size'), (1, 'unknown'), (2, 'cancel-old-stream')])
@@ -171,6 +179,7 @@ def run_case(data):
         n = ch.pick([50, 200, 1000, 3000])
         r.step('phase', phase, n)
         before = len(c.streams)
+        before_closed = len(c._closed_streams)
         if phase in ('noise-idle', 'noise-closed', 'unknown'):
             buf = b''
             k = 0
@@ -191,10 +200,9 @@ def run_case(data):
                 elif kind == 1 and phase == 'noise-closed':
                     buf += wire.window_update(sid, 1)
                 elif kind == 2:
-                    if phase == 'noise-idle':
-                        buf += wire.priority(sid, 0, 5)
-                    else:
-                        buf += wire.rst_stream(sid, 8)
+                    # (RST_STREAM on an idle stream is ignored by this library - a documented leniency - or a
+                    # connection error; either way it leaves nothing behind)
+                    buf += wire.rst_stream(sid, 8)
                 elif kind == 4:
                     buf += wire.raw(ch.int(0x0b, 0xff), ch.u8(), sid, ch.bytes(ch.int(0, 8)))
                 else:
@@ -211,6 +219,9 @@ def run_case(data):
             if not dead and len(c.streams) != before:
                 r.violate('C27:non-opening-frames-allocated-stream-state:%s' % phase,
                           '%d -> %d' % (before, len(c.streams)))
+            if not dead and len(c._closed_streams) > before_closed:
+                r.violate('C27:non-opening-frames-grew-closed-stream-memory:%s' % phase,
+                          '%d -> %d' % (before_closed, len(c._closed_streams)))
         elif phase == 'churn':
             for i in range(n // 2):
                 if dead:
@@ -312,16 +323,30 @@ def run_case(data):
         elif phase == 'header-list-size':
             # acknowledged MAX_HEADER_LIST_SIZE lowered to 2000, then a list within a few bytes of it
             hls = ch.pick([2000, 2000, 300, 0, 1, 15000])
+            if default_hls is not None and ch.bool():
+                # the limit announced in the initial SETTINGS frame (class constant), not changed since
+                hls = None
             # (announced alone, or together with other settings in the same SETTINGS frame)
-            new = {wire.S_MAX_HEADER_LIST_SIZE: hls}
-            if ch.chance(100):
-                new[wire.S_INITIAL_WINDOW_SIZE] = ch.pick([65535, 70000])
-            if ch.chance(60):
-                new[wire.S_MAX_FRAME_SIZE] = 16384
-            o = ep.call('update_settings', new)
-            feed(wire.settings(ack=True), 1, 'header-list-size')
-            if dead:
-                break
+            second_pending = False
+            if hls is None:
+                hls = default_hls
+                if hls_touched:
+                    continue
+            else:
+                hls_touched = True
+                new = {wire.S_MAX_HEADER_LIST_SIZE: hls}
+                if ch.chance(100):
+                    new[wire.S_INITIAL_WINDOW_SIZE] = ch.pick([65535, 70000])
+                if ch.chance(60):
+                    new[wire.S_MAX_FRAME_SIZE] = 16384
+                o = ep.call('update_settings', new)
+                if ch.chance(64):
+                    # a second change is already on its way when the first is acknowledged: it does not count yet
+                    ep.call('update_settings', {wire.S_MAX_HEADER_LIST_SIZE: 60000})
+                    second_pending = True
+                feed(wire.settings(ack=True), 1, 'header-list-size')
+                if dead:
+                    break
             base = RESP if client else REQ
             base_size = sum(len(k) + len(v) + 32 for k, v in base)
             delta = ch.pick([-2, -1, 0, 1, 2, 40])
@@ -352,7 +377,9 @@ def run_case(data):
                     r.violate('C27:header-list-beyond-limit-accepted:delta=%d' % delta, '')
                 elif o.code != wire.ENHANCE_YOUR_CALM:
                     r.violate('C27:oversized-header-list-wrong-code:%s' % o.code, '')
-            if not dead:
+            if not dead and second_pending:
+                feed(wire.settings(ack=True), 1, 'header-list-size')
+            if not dead and hls_touched:
                 ep.call('update_settings', {wire.S_MAX_HEADER_LIST_SIZE: 65536})
                 feed(wire.settings(ack=True), 1, 'header-list-size')
         if not dead:
